@@ -81,8 +81,10 @@ type dbHarness struct {
 	evSeq       int
 	ingestSeq   uint64
 	nCkpt       int
-	fmvFloor    int // the version may never be observed below this ...
-	fmvFloorIdx int // ... in crash images at or after this disk index
+	fmvFloors   []fmvFloor // completed ratchets of the current segment
+	fmvSegStart int        // version at the start of the current segment
+	fmvMax      int        // highest version ever requested
+	durScans    []durScan  // OnlyReadGuaranteedDurable scans of the current segment
 	levelsEach  bool
 	closeEach   bool
 
@@ -387,6 +389,16 @@ func (h *dbHarness) drive() {
 		return
 	}
 	h.db = db
+	h.fmvFloors, h.durScans = nil, nil
+	if v := int(db.FormatMajorVersion()); true {
+		if v < h.fmvSegStart && h.segment > 1 {
+			Violation("fmv", "format major version went from %d to %d across a crash/reopen", h.fmvSegStart, v)
+		}
+		h.fmvSegStart = v
+		if v > h.fmvMax {
+			h.fmvMax = v
+		}
+	}
 	if h.pendingCtx != nil {
 		h.checkRecovered()
 	}
@@ -478,6 +490,8 @@ func (h *dbHarness) exec(op *DBOp) {
 	case "crashnow":
 		h.pendSurv = op.Surv
 		h.crashHere()
+	case "durscan":
+		h.execDurScan()
 	case "compact":
 		if err := h.db.Compact(context.Background(), []byte(op.Key), []byte(op.End), op.Flag); err != nil {
 			h.opErr("compact", err)
